@@ -280,6 +280,11 @@ class Runner:
     def world(self, kind, did, key):
         k = (kind, did, key)
         w = self.worlds.get(k)
+        if w is not None and getattr(w, "dirty", False):
+            w.disconnect()
+            w.__exit__(None, None, None)
+            del self.worlds[k]
+            w = None
         if w is None:
             if len(self.worlds) > 24:
                 for old in list(self.worlds.values()):
@@ -304,6 +309,16 @@ class Runner:
         script = None
         if case.get("session") is not None:
             script = [RP.login(bytes.fromhex(case["session"]))]
+        if case.get("faults"):
+            # replies with a fault at one or more steps after the login (login reply stays valid: C01's precondition)
+            from props import c09
+
+            valid = c09.valid_replies(case["op"])
+            script = []
+            for step, v in enumerate(valid):
+                f = case["faults"].get(str(step))
+                script.append(Ellipsis if f is None else c09.make_reply(v, tuple(f)))
+            w.dirty = True
         args = dict(case.get("args") or {})
         if "ir_len" in args:
             args["remote_obj"] = length_remote(args.pop("ir_len"), case["op"] == "breeze_swing")
